@@ -60,6 +60,7 @@ def addrOp : List String → String
 def addrnewOp : List String → String
   | [u, d, res, pres, env] =>
     if res == "PANIC" then propfail "panic" else
+    if res.startsWith "ctor-differs" then propfail s!"constructors-of-Address-disagree-on-the-same-parts:{res}" else
     match hexChars? u, hexChars? d, parseEnv env with
     | some u, some d, some e =>
       let implOk := res.startsWith "ok"
